@@ -22,6 +22,45 @@ def constAt (key : Str) (i : Nat) : Str :=
   | some r => r.2.getD i []
   | none => []
 
+/-! ## class kinds: the base list of a class definition -/
+
+section ClassKinds
+open Tranp.AstPath
+
+theorem mapM_ok_of_forall {α β ε : Type} (f : α → Except ε β) (g : α → β) :
+    ∀ xs : List α, (∀ x ∈ xs, f x = .ok (g x)) → xs.mapM f = .ok (xs.map g) := by
+  intro xs
+  induction xs with
+  | nil => intro _; rfl
+  | cons x xs ih =>
+    intro h
+    have hx := h x (by simp)
+    have hxs := ih (fun y hy => h y (by simp [hy]))
+    simp [List.mapM_cons, hx, hxs, bind, Except.bind, pure, Except.pure]
+
+/-- the entries of a base list that are bases (`InheritArgument`s) -/
+def baseEntries (ia : Entry) : List Entry := ia.children.filter (fun c => c.name == c!"typed_argvalue")
+
+/-- every base starts with a type expression (what grammar.lark's `typed_argvalue` guarantees) -/
+def basesWf (ia : Entry) : Bool := (baseEntries ia).all fun inh => match inh.children.head? with
+  | some t => typeTags.contains t.name
+  | none => false
+
+/-- `class_type.tokens` of every base, in order -/
+def baseNames (ia : Entry) : List Str := (baseEntries ia).map fun inh => match inh.children.head? with
+  | some t => tokens t
+  | none => []
+
+/-- the kind Python's reading gives a class: an enumeration iff the bare name `Enum` is one of its bases -/
+def pyClassKind (bases : List Str) : Str := if bases.contains c!"Enum" then c!"Enum" else c!"Class"
+
+/-- example entries: a base `n`, a class definition with the given base list -/
+def tv (n : Str) : Entry := .tree c!"typed_argvalue" [.tree c!"typed_var" [.token c!"NAME" n]]
+def cls2 (bases : List Entry) : Entry :=
+  .tree c!"class_def" [.tree c!"class_def_raw" [.token c!"NAME" c!"B", .tree c!"inherit_arguments" bases, .tree c!"block" []]]
+
+end ClassKinds
+
 /-! ## the supported operator vocabulary -/
 
 /-- operator codes occurring in the generated ladder -/
